@@ -30,12 +30,12 @@ type RawInput struct {
 }
 
 type RawObs struct {
-	Dials   int    `json:"backend_connections"`
-	Backend hx.B   `json:"backend_received"`
-	Client  hx.B   `json:"client_received"`
-	Events  int    `json:"events"`
-	Parses  bool   `json:"datagram_is_dns"`
-	ParsesL []bool `json:"prefix_is_dns,omitempty"` // dns-proxy over a stream: do the first j client writes together unpack as a DNS message
+	Dials       int  `json:"backend_connections"`
+	Backend     hx.B `json:"backend_received"`
+	Client      hx.B `json:"client_received"`
+	Events      int  `json:"events"`
+	Parses      bool `json:"datagram_is_dns"`
+	EvPayloadOK bool `json:"event_payload_ok"` // the event of a datagram that is not DNS carries the datagram as payload
 }
 
 type recChannel struct {
@@ -44,16 +44,16 @@ type recChannel struct {
 }
 
 func (c *recChannel) Send(e event.Event) { c.mu.Lock(); c.evs = append(c.evs, e); c.mu.Unlock() }
-func (c *recChannel) count(cat string, src net.Addr) int {
+func (c *recChannel) of(cat string, src net.Addr) []event.Event {
 	c.mu.Lock()
 	defer c.mu.Unlock()
-	n := 0
+	var out []event.Event
 	for _, e := range c.evs {
 		if e.Get("category") == cat && fromAddr(e, src) {
-			n++
+			out = append(out, e)
 		}
 	}
-	return n
+	return out
 }
 
 // fromAddr: the event is attributed (source-ip, source-port) to the given client address.
@@ -88,14 +88,28 @@ func catOf(svc string) string {
 	return "dns-proxy"
 }
 
-func (e *env) capCount(cat string, src net.Addr) int {
-	n := 0
+func (e *env) capOf(cat string, src net.Addr) []event.Event {
+	var out []event.Event
 	for _, ev := range e.l.EventsOf("cap") {
 		if ev.Get("category") == cat && fromAddr(ev, src) {
-			n++
+			out = append(out, ev)
 		}
 	}
-	return n
+	return out
+}
+
+func (e *env) capCount(cat string, src net.Addr) int { return len(e.capOf(cat, src)) }
+
+// dnsFrame: the message of a length-framed stream (RFC 1035 4.2.2), if it is complete.
+func dnsFrame(stream []byte) ([]byte, bool) {
+	if len(stream) < 2 {
+		return nil, false
+	}
+	n := int(stream[0])<<8 | int(stream[1])
+	if len(stream)-2 < n {
+		return nil, false
+	}
+	return stream[2 : 2+n], true
 }
 
 func concatB(bs []hx.B) []byte {
@@ -117,17 +131,16 @@ func (e *env) runRaw(in RawInput) (RawObs, string) {
 	if in.Transport == "udp" {
 		ob.Parses = new(dns.Msg).Unpack(sent) == nil
 	} else if in.Svc == "dns-proxy" && len(in.Segs) > 0 {
-		// the stream branch does one Read: what counts is the client's first write
-		ob.Parses = new(dns.Msg).Unpack(in.Segs[0]) == nil
-		var acc []byte
-		for _, sg := range in.Segs {
-			acc = append(acc, sg...)
-			ob.ParsesL = append(ob.ParsesL, new(dns.Msg).Unpack(acc) == nil)
+		// the stream branch reads one length-framed message: the oracle is about that message
+		if m, ok := dnsFrame(sent); ok {
+			ob.Parses = new(dns.Msg).Unpack(m) == nil
 		}
 	}
 	want := len(sent)
-	if in.Svc == "dns-proxy" && in.Transport == "tcp" && len(in.Segs) > 0 {
-		want = len(in.Segs[0]) // all the backend will ever be sent
+	if in.Svc == "dns-proxy" && in.Transport == "tcp" {
+		if m, ok := dnsFrame(sent); ok {
+			want = 2 + len(m) // what the proxy forwards
+		}
 	}
 	// backend scripts
 	var reply [][]byte
@@ -227,6 +240,11 @@ func (e *env) runRaw(in RawInput) (RawObs, string) {
 			}
 			time.Sleep(300 * time.Microsecond)
 		}
+		if in.Svc == "dns-proxy" {
+			// a DNS client that has sent its query: nothing more will come (a stream that is
+			// not a complete framed message ends here instead of holding the proxy for 30 s)
+			cc.CloseWrite()
+		}
 		// the proxy (or the backend through it) ends the exchange; give up after a while
 		select {
 		case <-rd:
@@ -272,7 +290,7 @@ func (e *env) runRaw(in RawInput) (RawObs, string) {
 			}
 			// a DummyUDPConn has no close to wait for: wait until the exchange that the input
 			// calls for is visible (backend has the datagram, client its reply), at most 1.5 s
-			expectReply := len(reply) > 0 && (in.Svc == "copy" || ob.Parses)
+			expectReply := len(reply) > 0
 			deadline := time.Now().Add(1500 * time.Millisecond)
 			for time.Now().Before(deadline) {
 				nb := len(e.udpBE.snapshot()) - udp0 + len(e.udpBE2.snapshot()) - udp20
@@ -319,16 +337,29 @@ func (e *env) runRaw(in RawInput) (RawObs, string) {
 	cmu.Unlock()
 	// the event is sent when Handle returns: give it a moment once something was relayed
 	evDeadline := time.Now().Add(500 * time.Millisecond)
+	var evs []event.Event
 	for {
 		if rec != nil {
-			ob.Events = rec.count(cat, clientAddr)
+			evs = rec.of(cat, clientAddr)
 		} else {
-			ob.Events = e.capCount(cat, clientAddr) - ev0
+			evs = e.capOf(cat, clientAddr)
+			if ev0 <= len(evs) {
+				evs = evs[ev0:]
+			}
 		}
+		ob.Events = len(evs)
 		if ob.Events > 0 || len(ob.Backend) == 0 || time.Now().After(evDeadline) {
 			break
 		}
 		time.Sleep(2 * time.Millisecond)
+	}
+	ob.EvPayloadOK = true
+	if in.Svc == "dns-proxy" && in.Transport == "udp" && !ob.Parses {
+		for _, ev := range evs {
+			if ev.Get("payload") != string(sent) {
+				ob.EvPayloadOK = false
+			}
+		}
 	}
 	return ob, ""
 }
@@ -393,6 +424,16 @@ func genRawInputs(o hx.Opts, r *hx.Rand) []RawInput {
 	ins = append(ins, RawInput{Svc: "copy", Transport: "tcp", Via: "server", Segs: []hx.B{hx.B("hello backend\n")}, Reply: []hx.B{hx.B("hello client\n")}})
 	q := dnsQuery(r)
 	ins = append(ins, RawInput{Svc: "dns-proxy", Transport: "udp", Via: "server", Segs: []hx.B{q}, Reply: []hx.B{dnsAnswer(r, q)}})
+	// ... and of the repaired dns-proxy findings: a datagram that is not DNS (forwarded, now
+	// recorded with its payload and answered); a framed query over a stream written as 1+1+n bytes
+	ins = append(ins, RawInput{Svc: "dns-proxy", Transport: "udp", Via: "server",
+		Segs: []hx.B{{0x25, 0x60, 0x01, 0xc4, 0x7c, 0x14, 0xaf, 0xae, 0x28, 0x23, 0xa7, 0x92}}, Reply: []hx.B{hx.B("whatever the backend says")}})
+	{
+		a := dnsAnswer(r, q)
+		ins = append(ins, RawInput{Svc: "dns-proxy", Transport: "tcp", Via: "server",
+			Segs:  []hx.B{{byte(len(q) >> 8)}, {byte(len(q))}, hx.B(q[:7]), hx.B(q[7:])},
+			Reply: []hx.B{{byte(len(a) >> 8)}, append([]byte{byte(len(a))}, a[:5]...), hx.B(a[5:])}})
+	}
 	n := 40
 	if o.Tier != "quick" {
 		n = 300
@@ -417,34 +458,42 @@ func genRawInputs(o hx.Opts, r *hx.Rand) []RawInput {
 		}
 		if in.Transport == "udp" {
 			var d []byte
-			if in.Svc == "dns-proxy" && r.Chance(3, 4) {
+			if in.Svc == "dns-proxy" && r.Chance(2, 3) {
 				d = dnsQuery(r)
 				in.Reply = []hx.B{dnsAnswer(r, d)}
 			} else {
+				// arbitrary datagram; the backend answers whatever it gets
 				d = r.Bytes(r.PickInt([]int{1, 12, 100, 512, 1400}))
-				// copy always gets an answer; dns-proxy waits for one (without any deadline) whenever
-				// the datagram unpacks as a DNS message, so the backend answers those too
-				if in.Svc == "copy" || new(dns.Msg).Unpack(d) == nil {
-					in.Reply = []hx.B{r.Bytes(r.PickInt([]int{1, 50, 1000}))}
-				}
+				in.Reply = []hx.B{r.Bytes(r.PickInt([]int{1, 50, 1000}))}
 			}
 			in.Segs = []hx.B{d}
 		} else {
 			total := r.Bytes(r.PickInt([]int{1, 10, 100, 1000, 5000, 65536}))
 			rep := r.Bytes(r.PickInt([]int{1, 10, 100, 1000, 5000, 65536}))
 			if in.Svc == "dns-proxy" {
-				total = dnsQuery(r)
-				rep = dnsAnswer(r, total)
-				switch r.Intn(4) {
-				case 0: // as a DNS client over TCP sends it: two-byte length prefix (RFC 1035 4.2.2)
-					total = append([]byte{byte(len(total) >> 8), byte(len(total))}, total...)
-					rep = append([]byte{byte(len(rep) >> 8), byte(len(rep))}, rep...) // and so does the server
-				case 1: // a long answer
-					rep = r.Bytes(r.PickInt([]int{5000, 65536}))
+				// DNS over a stream: query and answer carry their two-byte length (RFC 1035 4.2.2)
+				q := dnsQuery(r)
+				a := dnsAnswer(r, q)
+				switch r.Intn(8) {
+				case 0: // a long answer
+					a = r.Bytes(r.PickInt([]int{5000, 40000, 65535}))
+				case 1: // a framed message that is not DNS
+					q = r.Bytes(r.PickInt([]int{1, 5, 40}))
 				}
-				if r.Chance(1, 2) { // the whole query in one write
+				total = append([]byte{byte(len(q) >> 8), byte(len(q))}, q...)
+				rep = append([]byte{byte(len(a) >> 8), byte(len(a))}, a...)
+				switch r.Intn(8) {
+				case 0: // malformed stream: no length prefix
+					total = q
+				case 1: // malformed stream: cut short
+					total = total[:r.Range(1, len(total)-1)]
+				}
+				if r.Chance(1, 3) { // the whole query in one write
 					in.Segs = append(in.Segs, hx.B(total))
 					total = nil
+				} else if r.Chance(1, 3) { // the length bytes apart
+					in.Segs = append(in.Segs, hx.B(total[:1]))
+					total = total[1:]
 				}
 			}
 			for _, c := range randCuts(r, len(total)) {
@@ -481,15 +530,8 @@ func coqRawCase(id int, in RawInput, ob RawObs) string {
 	for _, s := range in.Reply {
 		reps = append(reps, coqPacked(s))
 	}
-	pl := []string{hx.CoqBool(ob.Parses)}
-	if len(ob.ParsesL) > 0 {
-		pl = nil
-		for _, b := range ob.ParsesL {
-			pl = append(pl, hx.CoqBool(b))
-		}
-	}
-	return fmt.Sprintf("mkR %s %s %s %s %s %s %s %s %s %s", hx.CoqN(uint64(id)), svc, kind, hx.CoqList(segs, "bytes"), hx.CoqList(reps, "bytes"),
-		hx.CoqList(pl, "bool"), hx.CoqN(uint64(ob.Dials)), coqPacked(ob.Backend), coqPacked(ob.Client), hx.CoqN(uint64(ob.Events)))
+	return fmt.Sprintf("mkR %s %s %s %s %s %s %s %s %s %s %s", hx.CoqN(uint64(id)), svc, kind, hx.CoqList(segs, "bytes"), hx.CoqList(reps, "bytes"),
+		hx.CoqBool(ob.Parses), hx.CoqN(uint64(ob.Dials)), coqPacked(ob.Backend), coqPacked(ob.Client), hx.CoqN(uint64(ob.Events)), hx.CoqBool(ob.EvPayloadOK))
 }
 
 func runRawPart(o hx.Opts, r *hx.Rand, e *env, replay *Input) {
